@@ -521,6 +521,70 @@ func runTimeFormulas(c *Ctx) {
 			}
 		}
 	}
+	// the zone name is handed to the loader as it was read, and whether the loader is asked does not depend on what
+	// the name looks like: names without a slash (Japan, Singapore, EST) are valid zone names, and a trimmed or folded
+	// name is not the one the feed gave
+	for _, fn := range staticParseFns(c) {
+		for _, blk := range fn.Blocks {
+			for _, in := range blk.Instrs {
+				call, isCall := in.(*ssa.Call)
+				if !isCall || calleeName(call) != "time.LoadLocation" {
+					continue
+				}
+				arg := call.Call.Args[0]
+				why := ""
+				if computedByCall(arg, 0) {
+					why = "the name is passed through a function before it is looked up"
+				}
+				// the root of the name: through normalising calls back to what was read
+				root := arg
+				for i := 0; i < 6; i++ {
+					if cl, ok := root.(*ssa.Call); ok && len(cl.Call.Args) > 0 {
+						root = cl.Call.Args[0]
+						continue
+					}
+					break
+				}
+				var reads func(v ssa.Value, d int) bool
+				reads = func(v ssa.Value, d int) bool {
+					if v == nil || d > 8 {
+						return false
+					}
+					if v == root || v == arg {
+						return true
+					}
+					switch x := v.(type) {
+					case *ssa.Call:
+						for _, a := range x.Call.Args {
+							if reads(a, d+1) {
+								return true
+							}
+						}
+					case *ssa.BinOp:
+						return reads(x.X, d+1) || reads(x.Y, d+1)
+					case *ssa.UnOp:
+						return reads(x.X, d+1)
+					case *ssa.Phi:
+						for _, e := range x.Edges {
+							if reads(e, d+1) {
+								return true
+							}
+						}
+					}
+					return false
+				}
+				for _, ce := range dominatingConds(blk) {
+					if ce.Composite {
+						continue
+					}
+					if reads(ce.Cond, 0) {
+						why = "whether the loader is asked depends on a test of the name (" + p.ipos(ce.If) + ")"
+					}
+				}
+				c.Check(why == "", "TIME", shortName(fn), "the zone name is looked up as read", p.ipos(call), "time.LoadLocation is handed the name itself, under no condition on the name", why+": a valid zone name can end up as UTC, and every calendar date is then midnight in the wrong zone")
+			}
+		}
+	}
 	// dates are produced by nothing else: time.Date normalises impossible dates (30 February becomes 2 March) instead of
 	// rejecting them, time.Unix is not a civil date at all
 	nOther := 0
